@@ -208,7 +208,7 @@ def shuffle_modes(ctx, n=None):
 
 
 def run(ctx):
-    cw.standard_check(ctx, gen_cases(ctx), PROP, KINDS, "runner.tests", monitor, list_first=True)
+    cw.standard_check(ctx, cw.corpus_cases(PROP) + gen_cases(ctx), PROP, KINDS, "runner.tests", monitor, list_first=True)
     shuffle_modes(ctx)
 
 
